@@ -8,6 +8,16 @@ import os
 
 os.environ.setdefault('TQDM_DISABLE', '1')   # the mappers wrap their chunk loops in tqdm; keep the check's output clean
 
+
+def quiet_progress_bars():
+    """torch_frame (and with it tqdm) may already be imported when this module is loaded, so the environment
+    variable can come too late: give the mapper module a disabled tqdm (it iterates exactly like the original)."""
+    import functools
+    import tqdm
+    from torch_frame.data import mapper
+    if getattr(mapper.tqdm, 'func', None) is not tqdm.tqdm:
+        mapper.tqdm = functools.partial(tqdm.tqdm, disable=True)
+
 STR_POOL = ['a', 'bb', '', 'ccc dd', 'é', '日本語', 'None', 'nan', '<NA>', ' x ', '😀', 'A\tB', '0', '1.5', 'NaN',
             'img/0.png', '/tmp/a b.jpg', 'ß', 'xyzxyzxy', '"q"', 'a\\b', 'null']
 ALPHABET = 'abcXYZ 019_-./éß日😀'
@@ -230,6 +240,7 @@ def rows_of(out, col):
 
 def run_mapper(col, ser, bs='case'):
     from torch_frame.data.mapper import EmbeddingTensorMapper, TextTokenizationTensorMapper
+    quiet_progress_bars()
     rec = Recorder()
     stub = make_stub(col, rec)
     b = col['bs'] if bs == 'case' else bs
@@ -252,6 +263,7 @@ def run_dataset(case):
     from torch_frame import stype
     from torch_frame.config import ImageEmbedderConfig, TextEmbedderConfig, TextTokenizerConfig
     from torch_frame.data import Dataset
+    quiet_progress_bars()
     n = case['n']
     data, c2s, emb_cfg, img_cfg, tok_cfg, recs = {}, {}, {}, {}, {}, {}
     for col in case['cols']:
